@@ -28,7 +28,7 @@ FAMILIES = {
                                                    "thorough": dict(num=2500, depth=25, consts={"GenSet": '"full"', "PauseSet": '"full"'}, seeds=4)}),
         ],
         mode="app", controls="nopause,nopt", swap=False),
-    "REQ": dict(
+    "REQ": dict(twice=True,
         mc=("MC_Req", "MC_Req.cfg", {"quick": {"ReqSet": '"small"'}, "thorough": {"ReqSet": '"full"'}}),
         gens=[("Gen_Req", "Gen_Req.cfg", "bfs", {"quick": dict(depth=1, consts={"ReqSet": '"small"'}),
                                                "thorough": dict(depth=1, consts={"ReqSet": '"full"'})})],
@@ -46,7 +46,7 @@ FAMILIES = {
               ("Gen_Order", "Gen_Order.cfg", "sim", {"quick": dict(num=200, depth=5, consts={}, seeds=1),
                                                     "thorough": dict(num=2000, depth=8, consts={}, seeds=3)})],
         replays=[dict(mode="instrswap", controls="", swap=True)]),
-    "PARSE": dict(
+    "PARSE": dict(twice=True,
         mc=("MC_Parse", "MC_Parse.cfg", {"quick": {"ParseSet": '"small"', "NRandom": "20"}, "thorough": {"ParseSet": '"full"', "NRandom": "400"}}),
         gens=[("Gen_Parse", "Gen_Parse.cfg", "bfs", {"quick": dict(depth=1, consts={"ParseSet": '"small"', "NRandom": "20"}),
                                                    "thorough": dict(depth=1, consts={"ParseSet": '"full"', "NRandom": "400"})})],
@@ -60,11 +60,11 @@ FAMILIES = {
         mc=("MC_Genesis", "MC_Genesis.cfg", {"quick": {"MaxDepth": "1"}, "thorough": {"MaxDepth": "2"}}),
         gens=[("Gen_Genesis", "Gen_Genesis.cfg", "bfs", {"quick": dict(depth=1, consts={}), "thorough": dict(depth=1, consts={})})],
         replays=[dict(mode="app", controls="nopause", swap=False, extra=[])]),
-    "DENOM": dict(
+    "DENOM": dict(twice=True,
         mc=("MC_Denom", "MC_Denom.cfg", {"quick": {"MaxDepth": "1"}, "thorough": {"MaxDepth": "1"}}),
         gens=[("Gen_Denom", "Gen_Denom.cfg", "bfs", {"quick": dict(depth=1, consts={}), "thorough": dict(depth=1, consts={})})],
         replays=[dict(mode="instr", controls="", swap=False), dict(mode="app", controls="", swap=False)]),
-    "PASS": dict(
+    "PASS": dict(twice=True,
         mc=("MC_Pass", "MC_Pass.cfg", {"quick": {"MaxDepth": "2"}, "thorough": {"MaxDepth": "3"}}),
         gens=[("Gen_Pass", "Gen_Pass.cfg", "bfs", {"quick": dict(depth=1, consts={}), "thorough": dict(depth=2, consts={})}),
               ("Gen_Pass", "Gen_Pass.cfg", "sim", {"quick": dict(num=300, depth=8, consts={}, seeds=1), "thorough": dict(num=2000, depth=12, consts={}, seeds=3)})],
@@ -117,6 +117,10 @@ FAMILIES = {
         mc=("MC_Pause", "MC_Pause.cfg", {"quick": {"PauseSet": '"small"'}, "thorough": {"PauseSet": '"small"'}}),
         gens=[("rpcs", None, "harness", {"quick": {}, "thorough": {}})],
         replays=[dict(mode="app", controls="", swap=False), dict(mode="instrauth", controls="", swap=False)]),
+    "XFUND": dict(     # coins of the OTHER denomination on the orbiter account must never fund a transfer
+        mc=("MC_XFund", "MC_XFund.cfg", {"quick": {"MaxDepth": "4"}, "thorough": {"MaxDepth": "5"}}),
+        gens=[("Gen_XFund", "Gen_XFund.cfg", "bfs", {"quick": dict(depth=3, consts={}), "thorough": dict(depth=4, consts={})})],
+        replays=[dict(mode="app", controls="clean,nopause", swap=False)]),
     "BIGSEQ": dict(
         mc=("MC_FeesBig", "MC_FeesBig.cfg", {"quick": {"Ks": "{64}"}, "thorough": {"Ks": "{64, 255}"}}),
         gens=[("Gen_BigSeq", "Gen_BigSeq.cfg", "bfs", {"quick": dict(depth=1, consts={}), "thorough": dict(depth=1, consts={})})],
@@ -136,11 +140,11 @@ FAMILIES = {
 
 # Properties: families that decide them, conformance groups reported with them, evidence texts.
 PROPS = {
-    "C01": dict(families=["FUNDS"], groups=["ack", "bal"], level="model_checking",
+    "C01": dict(families=["FUNDS", "XFUND"], groups=["ack", "bal"], level="model_checking",
                 rule="a step is non-trivial for C01 when it is a packet reception; distinct = distinct (abstract pre-state, abstract input)"),
-    "C02": dict(families=["FUNDS", "FEESBIG"], groups=["bal", "supply"], level="model_checking",
+    "C02": dict(families=["FUNDS", "FEESBIG", "XFUND"], groups=["bal", "supply"], level="model_checking",
                 rule="non-trivial = a successful orbiter transfer (success acknowledgement); distinct = distinct (abstract pre-state, abstract input)"),
-    "C11": dict(families=["DUST", "FUNDS"], groups=["ack", "bal", "stats", "xfers"], level="model_checking",
+    "C11": dict(families=["DUST", "FUNDS", "XFUND"], groups=["ack", "bal", "stats", "xfers"], level="model_checking",
                 rule="non-trivial = an orbiter packet received while the orbiter account holds coins, with the paired control run on the emptied account executed; distinct = distinct (pre-state, input)"),
     "C12": dict(families=["FUNDS", "STATS", "ORDER", "DISCARD"], groups=["stats"], level="model_checking",
                 rule="non-trivial = a successful orbiter transfer (statistics must change by exactly that transfer); all other steps are checked for 'unchanged'; distinct = distinct (pre-state, input)"),
@@ -231,6 +235,11 @@ def run_family(fam, tier, seed, wd, specdir, report):
             n0 = len(behs)
             for si, (hs, dt) in enumerate(res):
                 for j, h in enumerate(hs):
+                    if F.get("twice"):
+                        # every input of the grid is delivered twice in a row: the specification judges
+                        # each delivery from its own pre-state, so a first call that leaves something
+                        # behind in process memory shows at the second
+                        h = [x for x in h for _ in (0, 1)]
                     behs.append({"b": "%s-bfs%d-%d-%d" % (fam, gi, si, j), "steps": h})
             log("generated %d exhaustive histories of length %d (%s) in %.0fs" % (len(behs) - n0, t["depth"], gmod, max(r[1] for r in res)))
         else:
